@@ -491,7 +491,11 @@ def opTables (_ : Json) : Option Json :=
   let pairs := fun (l : List (String × String)) => jArr (l.map fun p => jArr [Json.str p.1, Json.str p.2])
   some (ok (jObj [
     ("defaults", jArr (solverTables.defaults.map fun e => jArr [Json.str e.1, pairs e.2])),
-    ("kwdicts", jArr (solverTables.kwDicts.map fun e => jArr [Json.str e.1, Json.str e.2.1, pairs e.2.2]))]))
+    ("kwdicts", jArr (solverTables.kwDicts.map fun e => jArr [Json.str e.1, Json.str e.2.1, pairs e.2.2])),
+    ("checks", jArr (solverTables.checks.map fun e => jArr [Json.str e.1, jArr (e.2.map fun c =>
+      jArr [Json.str c.guard, Json.str c.subject, jArr (c.classes.map Json.str), Json.str c.test, Json.str c.err])])),
+    ("woodbury_bind", jArr [Json.str solverTables.woodburyBind.1, Json.str solverTables.woodburyBind.2]),
+    ("woodbury", jArr (solverTables.woodbury.map fun a => jArr [Json.str a.kind, Json.str a.lhs, Json.str a.op, Json.str a.rhs]))]))
 
 /-- class checks of an `internal_init`: `solver`, `f_none`, `isinst` = [[subject, class], …] (the true ones), `ci` = [[classes of C_i], …] -/
 def opInitCheck (j : Json) : Option Json := do
